@@ -813,6 +813,27 @@ pub fn process_request(input: &str, dbs: &Arc<Databases>, client: &mut Client) -
         Ok(req) => req,
         Err(e) => return Response::Error { msg: e },
     };
+    // Only an administrator (or the replica set) names the database of a resolve: any other session
+    // resolves in the database it selected, here and on the nodes the resolve is sent on to
+    let request = match (request, &db_name_state) {
+        (
+            Request::Resolve {
+                opp_id,
+                db_name: _,
+                key,
+                value,
+                version,
+            },
+            Some(selected),
+        ) if !client.auth.load(Ordering::SeqCst) => Request::Resolve {
+            opp_id,
+            db_name: selected.clone(),
+            key,
+            value,
+            version,
+        },
+        (request, _) => request,
+    };
 
     log::debug!(
         "[{}] process_request parsed message '{}'. {}",
